@@ -70,7 +70,7 @@ func stringChain(v ssa.Value) (steps []chainStep, root ssa.Value) {
 		default:
 			// a helper of the repository with one string parameter whose result
 			// derives from it: its steps are spliced in
-			if g := call.Common().StaticCallee(); g != nil && len(g.Blocks) > 0 && len(g.Params) == 1 && len(a) == 1 && g.Signature.Results().Len() == 1 && strings.HasPrefix(ssau.FuncName(g), load.ModulePath) {
+			if g := call.Common().StaticCallee(); g != nil && len(g.Blocks) > 0 && len(g.Params) >= 1 && len(a) == len(g.Params) && g.Signature.Results().Len() == 1 && strings.HasPrefix(ssau.FuncName(g), load.ModulePath) {
 				rets := ssau.ReturnsOf(g)
 				if len(rets) == 1 {
 					inner, root := stringChain(rets[0].Results[0])
@@ -80,15 +80,23 @@ func stringChain(v ssa.Value) (steps []chainStep, root ssa.Value) {
 							opaque = true
 						}
 					}
-					if root == ssa.Value(g.Params[0]) && !opaque {
+					// the chain starts at one of the helper's parameters (further
+					// parameters configure a step, e.g. the characters to keep)
+					pi := -1
+					for k, p := range g.Params {
+						if root == ssa.Value(p) {
+							pi = k
+						}
+					}
+					if pi >= 0 && !opaque {
 						// the innermost step's input is the helper's parameter: rebind it to the argument
 						for i := range inner {
-							if inner[i].in == ssa.Value(g.Params[0]) {
-								inner[i].in = a[0]
+							if inner[i].in == ssa.Value(g.Params[pi]) {
+								inner[i].in = a[pi]
 							}
 						}
 						steps = append(steps, inner...)
-						v = a[0]
+						v = a[pi]
 						continue
 					}
 				}
@@ -325,6 +333,20 @@ func c14Query(c *Ctx, sx *symx.Ctx, fn *ssa.Function) {
 							}
 						}
 					}
+					// len(matcher(pattern, chain value)) > 0, the matcher a helper whose
+					// result is empty exactly when pattern.FindAllString finds nothing
+					if hc, ok := arg.(*ssa.Call); ok && len(hc.Common().Args) == 2 {
+						if h := hc.Common().StaticCallee(); h != nil && c.P.IsRepoFunc(h) && len(h.Blocks) > 0 {
+							if find, si, ok := c14RegexMatcher(h); ok {
+								if on, _ := onChain(hc.Common().Args[si]); on {
+									haveMeta = true
+									c14MetaSet(c, fk, find)
+								} else {
+									r.Bad("O-1", key+":metachar-test-subject", c.P.Pos(hc.Pos()), "the metacharacter test is applied to a value that is not on the derivation chain of the result")
+								}
+							}
+						}
+					}
 					if fa, ok := arg.(*ssa.Call); ok && strings.HasPrefix(ssau.CallName(fa), "(*regexp.Regexp).Find") {
 						subject := fa.Common().Args[1]
 						on, after := onChain(subject)
@@ -400,7 +422,7 @@ func c14MetaSet(c *Ctx, fk string, call *ssa.Call) {
 	switch n := ssau.CallName(call); {
 	case strings.HasPrefix(n, "(*regexp.Regexp)."):
 		// receiver: regexp.MustCompile(const) possibly via a package-level variable
-		tr := &origin.Tracer{FieldStoresIn: nil}
+		tr := &origin.Tracer{CG: c.P.CallGraph()} // a pattern handed to a matching helper is the argument at its call sites
 		var pat string
 		for _, rt := range tr.Roots(call.Common().Args[0]) {
 			if mc, ok := rt.V.(*ssa.Call); ok && (ssau.CallName(mc) == "regexp.MustCompile" || ssau.CallName(mc) == "regexp.Compile") {
@@ -627,6 +649,36 @@ func c14Strip(c *Ctx, fk string, call *ssa.Call) {
 			}
 		}
 	}
+	// the set form of the exemptions: strings.ContainsRune(keep, r) with keep a
+	// constant, or a parameter of the enclosing helper that only receives constants
+	setExempt := map[[2]int]bool{}
+	for _, iff := range ssau.Ifs(cl) {
+		cond, neg := iff.Cond, false
+		if u, ok := cond.(*ssa.UnOp); ok && u.Op == token.NOT {
+			cond, neg = u.X, true
+		}
+		cc, ok := cond.(*ssa.Call)
+		if !ok || ssau.CallName(cc) != "strings.ContainsRune" || cc.Common().Args[1] != ssa.Value(p) {
+			continue
+		}
+		sets, known := c14ConstStrings(c, cc.Common().Args[0], 0)
+		if !known {
+			bad = "the set of control characters exempted from removal is not a constant"
+			continue
+		}
+		for _, set := range sets {
+			for _, k := range set {
+				if !unicode.IsSpace(k) {
+					bad = fmt.Sprintf("control character U+%04X is exempted from removal but is not a Unicode space, so it survives the whitespace collapse", k)
+				}
+			}
+		}
+		side := 0 // the edge on which r is in the set
+		if neg {
+			side = 1
+		}
+		setExempt[[2]int{iff.Block().Index, side}] = true
+	}
 	// every path on which IsControl is true must either drop or pass an exemption comparison:
 	// with the drop returns and the exemption edges removed, no return is reachable from the IsControl-true edge
 	for _, iff := range ssau.Ifs(cl) {
@@ -635,6 +687,9 @@ func c14Strip(c *Ctx, fk string, call *ssa.Call) {
 			continue
 		}
 		cut := map[[2]int]bool{}
+		for e := range setExempt {
+			cut[e] = true
+		}
 		for _, i2 := range ssau.Ifs(cl) {
 			op, x, y, ok := ssau.CondOf(i2.Cond)
 			if !ok {
@@ -828,4 +883,159 @@ func c14EmptyTest(cond ssa.Value) (subj ssa.Value, emptySucc int, ok bool) {
 		}
 	}
 	return nil, 0, false
+}
+
+// c14RegexMatcher: h(pattern, s) (either order) returns a list that is empty
+// exactly when pattern.FindAllString(s, -1) is: the matches themselves, or a
+// list appended to once per key of a set that received every match. Returns
+// the Find call and the index of the subject parameter.
+func c14RegexMatcher(h *ssa.Function) (*ssa.Call, int, bool) {
+	if len(h.Params) != 2 || h.Signature.Results().Len() != 1 {
+		return nil, 0, false
+	}
+	var find *ssa.Call
+	si := -1
+	ssau.ForEachInstr(h, false, func(in ssa.Instruction) {
+		call, ok := in.(*ssa.Call)
+		if !ok || !strings.HasPrefix(ssau.CallName(call), "(*regexp.Regexp).FindAll") || len(call.Common().Args) < 2 {
+			return
+		}
+		a := call.Common().Args
+		for i, p := range h.Params {
+			if a[1] == ssa.Value(p) {
+				if rp := h.Params[1-i]; a[0] == ssa.Value(rp) {
+					find, si = call, i
+				}
+			}
+		}
+	})
+	if find == nil {
+		return nil, 0, false
+	}
+	loops := ssau.RangeLoops(h)
+	cd := ssau.ControlDeps(h)
+	uncond := func(l *ssau.RangeLoop, b *ssa.BasicBlock) bool {
+		if !l.InLoop(b) {
+			return false
+		}
+		for _, d := range ssau.TransitiveControlDeps(cd, b) {
+			if d.Branch != l.Header && l.InLoop(d.Branch) {
+				return false
+			}
+		}
+		return true
+	}
+	// nonEmptyWith(v): v is non-empty exactly when the matches are
+	var same func(v ssa.Value, d int) bool
+	same = func(v ssa.Value, d int) bool {
+		if d > 4 {
+			return false
+		}
+		if v == ssa.Value(find) {
+			return true
+		}
+		switch x := v.(type) {
+		case *ssa.Phi:
+			// a list grown in a loop: nil/empty on entry, one unconditional append per iteration
+			for i := range loops {
+				l := &loops[i]
+				if x.Block() != l.Header || l.Over == nil || !same(l.Over, d+1) {
+					continue
+				}
+				okEdges := 0
+				for _, e := range x.Edges {
+					if ssau.IsNilConst(e) {
+						okEdges++
+						continue
+					}
+					if ap, ok := e.(*ssa.Call); ok && ssau.CallName(ap) == "builtin.append" && ap.Common().Args[0] == ssa.Value(x) && uncond(l, ap.Block()) {
+						okEdges++
+					}
+				}
+				if okEdges == len(x.Edges) {
+					return true
+				}
+			}
+		case *ssa.MakeMap:
+			// a set that receives every element of a source, unconditionally
+			for _, ref := range *x.Referrers() {
+				mu, ok := ref.(*ssa.MapUpdate)
+				if !ok || mu.Map != ssa.Value(x) {
+					continue
+				}
+				for i := range loops {
+					l := &loops[i]
+					if l.Over != nil && same(l.Over, d+1) && uncond(l, mu.Block()) {
+						return true
+					}
+				}
+			}
+		}
+		return false
+	}
+	for _, ret := range ssau.ReturnsOf(h) {
+		if !same(ssau.ResultValue(ret, 0), 0) {
+			return nil, 0, false
+		}
+	}
+	return find, si, true
+}
+
+// c14ConstStrings: the constant strings v can be: a constant, or (a captured
+// copy of) a parameter of an unexported-or-exported repository function to
+// which every shipped call site passes such a value.
+func c14ConstStrings(c *Ctx, v ssa.Value, d int) ([]string, bool) {
+	if d > 4 {
+		return nil, false
+	}
+	if s, ok := ssau.ConstString(v); ok {
+		return []string{s}, true
+	}
+	var par *ssa.Parameter
+	switch x := v.(type) {
+	case *ssa.Parameter:
+		par = x
+	case *ssa.UnOp:
+		if fv, ok := x.X.(*ssa.FreeVar); ok {
+			if cell := ssau.FreeVarCell(fv); cell != nil {
+				for _, ref := range *cell.Referrers() {
+					if st, ok := ref.(*ssa.Store); ok && st.Addr == ssa.Value(cell) {
+						p, isP := st.Val.(*ssa.Parameter)
+						if !isP || par != nil {
+							return nil, false
+						}
+						par = p
+					}
+				}
+			}
+		} else if p := ssau.ParamOf(v); p != nil {
+			par = p
+		}
+	}
+	if par == nil {
+		return nil, false
+	}
+	fn := par.Parent()
+	node := c.P.CallGraph().Nodes[fn]
+	idx := paramIdx(fn, par)
+	if node == nil || idx < 0 {
+		return nil, false
+	}
+	var out []string
+	n := 0
+	for _, e := range node.In {
+		if !isShipped(c, e.Caller.Func) {
+			continue
+		}
+		if e.Site == nil || e.Site.Common().StaticCallee() != fn || idx >= len(e.Site.Common().Args) {
+			return nil, false
+		}
+		ss, ok := c14ConstStrings(c, e.Site.Common().Args[idx], d+1)
+		if !ok {
+			return nil, false
+		}
+		out = append(out, ss...)
+		n++
+	}
+	return out, n > 0
 }
